@@ -1,7 +1,7 @@
 /-
   Model of transport_layer_nack.go, rapid_resynchronization_request.go, picture_loss_indication.go,
   slice_loss_indication.go, full_intra_request.go (tree after the `fix:` commits).
-  `4*h.Length` and `h.Length*4` are uint16 products: written `(4 * l) % 65536`.
+  `length := 4 * int(h.Length)` (after the fix: commits 2796f0c, 8e7eece, 4d26312): no 16-bit wrap.
 -/
 import Rtcp.Model.Header
 namespace Rtcp
@@ -70,7 +70,7 @@ def TransportLayerNack.dec (b : Bytes) : Out TransportLayerNack :=
   if b.length < headerLength + ssrcLength then .err
   else do
     let h ← Header.dec b
-    let l4 := (4 * h.length) % 65536
+    let l4 := 4 * h.length
     if b.length < headerLength + l4 then .err
     else if h.type ≠ TypeTransportSpecificFeedback ∨ h.count ≠ FormatTLN then .err
     else if l4 ≤ nackOffset then .err
@@ -110,7 +110,7 @@ def SliceLossIndication.dec (b : Bytes) : Out SliceLossIndication :=
   if b.length < headerLength + sliOffset then .err
   else do
     let h ← Header.dec b
-    let l4 := (4 * h.length) % 65536
+    let l4 := 4 * h.length
     if b.length < headerLength + l4 then .err
     else if h.type ≠ TypeTransportSpecificFeedback ∨ h.count ≠ FormatSLI then .err
     else do
@@ -144,11 +144,10 @@ def FullIntraRequest.dec (b : Bytes) : Out FullIntraRequest :=
   if b.length < headerLength + firOffset then .err
   else do
     let h ← Header.dec b
-    let l4 := (4 * h.length) % 65536
+    let l4 := 4 * h.length
     if b.length < headerLength + l4 then .err
     else if h.type ≠ TypePayloadSpecificFeedback ∨ h.count ≠ FormatFIR then .err
-    -- `4*h.Length-firOffset <= 0` is a uint16 comparison: true only when the difference is 0
-    else if (l4 + 65536 - firOffset) % 65536 = 0 ∨ l4 % 8 ≠ 0 then .err
+    else if l4 ≤ firOffset ∨ l4 % 8 ≠ 0 then .err
     else do
       let s ← u32At b headerLength
       let m ← u32At b (headerLength + ssrcLength)
